@@ -36,6 +36,10 @@ unsigned long ghost_val;  /* value returned by draw number ghost_k         */
 unsigned long ghost_mod;  /* modulus requested by draw number ghost_k       */
 unsigned long draw_last;  /* value returned by the most recent draw        */
 
+/* ---- ghost log of the most recent fixed-base table precomputation (monitor of the call's arguments; written by
+ * the contract of tmcg_mpz_fpowm_precompute when a caller uses it in place of the body) -------------------------- */
+const void *ghost_pre_tab; size_t ghost_pre_t;
+
 /* ---- heap (rule E5): new/delete, failure excluded ----------------------- */
 void *malloc(size_t);
 void free(void *);
